@@ -4,6 +4,7 @@ package main
 
 import (
 	"reflect"
+	"regexp"
 	"strings"
 
 	"github.com/cockroachdb/redact"
@@ -19,6 +20,8 @@ func init() {
 			"non-trivial = an edge value outside the valid domain or a contained panic was observed; distinct = distinct cases",
 	})
 }
+
+var panicReportRe = regexp.MustCompile(`%!v\(PANIC=[A-Za-z]+ method: `)
 
 type tSafeMsgPanic struct{ ps panicSpec }
 
@@ -365,14 +368,16 @@ func c11panicCheck(w *Worker, pc c11panicCase, idx int64) {
 	if !checkOut(w, full, "output with a contained panic", cs) {
 		return
 	}
-	_, method, _ := pc.element(newBuildCtx(), false)
-	report := "(PANIC=" + method + " method: "
+	// The report is %!verb(PANIC=<label> method: <payload>). For String/Error/Format/GoString
+	// the label is fmt's (C04 compares it with fmt); for the redact-specific methods only the shape is required.
 	sf, sc := stripTokens(full), stripTokens(cut)
-	at := strings.Index(sf, report)
-	if at < 0 {
-		w.Violate("C11 no-report", "no "+report+"...) report in "+q(full)+" (without the panic: "+q(cut)+")", cs())
+	loc := panicReportRe.FindStringIndex(sf)
+	if loc == nil {
+		w.Violate("C11 no-report", "no %!v(PANIC=... method: ...) report in "+q(full)+" (without the panic: "+q(cut)+")", cs())
 		return
 	}
+	report := sf[loc[0]+3 : loc[1]]
+	at := loc[0] + 3
 	// "%!v" precedes the report
 	head := sf[:at]
 	if !strings.HasSuffix(head, "%!v") {
